@@ -214,6 +214,15 @@ def run(ctx):
                                     "_expect_ok": True, "_cekonly": True}))
     pub_ops.append(("jwe.enc", {"jwe": {"protected": {"alg": "A128KW", "enc": "A128GCM"}, "unprotected": {"zip": "DEF"}}, "jwk": pool["oct-16"], "pt": pts[5].hex(),
                                 "rand": rng.randbytes(300).hex(), "_wrap": "A128KW", "_enc": "A128GCM", "_zip": False, "_expect_ok": True, "_priv": pool["oct-16"]}))
+    # ciphertext text above the 256 KiB bound of COMPRESSED input, but not compressed: the bound does not apply - with the
+    # names in the protected header, in the shared unprotected header only (no protected header at all), per recipient
+    bigpt = rng.randbytes(200000)
+    for jwe_, rcp_ in (({"protected": {"alg": "A128KW", "enc": "A128GCM"}}, None), ({"unprotected": {"alg": "A128KW", "enc": "A128GCM"}}, None),
+                       ({"unprotected": {"enc": "A256CBC-HS512"}}, {"header": {"alg": "A128KW"}}), ({"protected": {"alg": "A128KW", "enc": "A128GCM"}, "unprotected": {"zip": "DEF"}}, None)):
+        x_ = {"jwe": jwe_, "jwk": pool["oct-16"], "pt": bigpt.hex(), "rand": rng.randbytes(300).hex(), "_wrap": "A128KW", "_enc": "x", "_zip": False, "_expect_ok": True, "_priv": pool["oct-16"]}
+        if rcp_ is not None:
+            x_["rcp"] = rcp_
+        pub_ops.append(("jwe.enc", x_))
     rp, mp = cmp(ctx, pub_ops, p_enc)
     d2 = []
     for (o, a), r in zip(pub_ops, rp):
